@@ -155,7 +155,7 @@ def ofStr (s : List Nat) : Except PyExc F :=
           -- clamp absurd exponents (the result is 0 or inf anyway)
           if mant = 0 then .ok (.fin neg 0 0)
           else if e10 > 400 then .ok (.inf neg)
-          else if e10 < -800 then .ok (.fin neg 0 0)
+          else if e10 + ((ip ++ fp).length : Int) < -400 then .ok (.fin neg 0 0)   -- value < 10^-400: rounds to zero
           else if e10 ≥ 0 then .ok (ofRat neg (mant * 10 ^ e10.toNat) 1)
           else .ok (ofRat neg mant (10 ^ (-e10).toNat))
 
